@@ -3,8 +3,11 @@ read from the AST of the working tree and written to lean/PyIpmi/Gen/Threads.lea
 
 What the interleaving model (Model/Threads.lean) hard-wires and this translator re-reads on every run:
 
-  * `_send_and_receive` first bumps the IPMB sequence number (`self._inc_sequence_number()`), reads it
-    into the header, and only then enters ONE `with self.transaction_lock:` block;
+  * `_send_and_receive` first bumps the IPMB sequence number (`self._inc_sequence_number()`) and reads it
+    into the header; there is ONE `with self.transaction_lock:` block; WHERE the sequence number is bumped and
+    read relative to that block is the model's second variant (`seqInLock`: the block is the first statement
+    of the function and nothing outside it mentions `next_sequence_number` / `_inc_sequence_number` -
+    fixes/C04-2.diff; as shipped both happen before the block);
   * every socket access of a request (`_send_ipmi_msg`, `_receive_ipmi_msg`, `self._q.get`) is lexically
     inside that block, and nothing is put back into `self._q`;
   * the session wrapper is built inside `_send_ipmi_msg` (`IpmiMsg(self._session)` … `.pack(...)`), i.e.
@@ -103,22 +106,31 @@ def analyse():
     before = top[:idx] if idx is not None else top
     after = top[idx + 1:] if idx is not None else []
     inside = withs[0] if withs else ast.Module(body=[], type_ignores=[])
-    first_call = None
-    for s in before:
-        if isinstance(s, ast.Expr) and isinstance(s.value, ast.Constant):
-            continue   # docstring
-        if isinstance(s, ast.Expr) and isinstance(s.value, ast.Call):
-            first_call = s.value
-        break
-    f['incFirst'] = bool(first_call is not None and isinstance(first_call.func, ast.Attribute)
-                         and first_call.func.attr == '_inc_sequence_number'
-                         and _is_self_attr(first_call.func, '_inc_sequence_number'))
+    def first_stmt(stmts):
+        for s in stmts:
+            if isinstance(s, ast.Expr) and isinstance(s.value, ast.Constant):
+                continue   # docstring
+            return s
+        return None
+
+    def is_inc(s):
+        return bool(s is not None and isinstance(s, ast.Expr) and isinstance(s.value, ast.Call)
+                    and isinstance(s.value.func, ast.Attribute) and s.value.func.attr == '_inc_sequence_number'
+                    and _is_self_attr(s.value.func, '_inc_sequence_number') and not s.value.args)
+    first = first_stmt(top)
+    # the first statement executed: of the function, or of the lock block when the function begins with it
+    f['incFirst'] = is_inc(first) or bool(withs and first is withs[0] and is_inc(first_stmt(withs[0].body)))
     f['incCalls'] = _self_calls(sar).count('_inc_sequence_number')
     io = ('_send_ipmi_msg', '_receive_ipmi_msg', '_send_rmcp_msg', '_receive_rmcp_msg', '_send_asf_msg',
-          '_receive_asf_msg')
+          '_receive_asf_msg', '_drain_socket')
     outside_nodes = ast.Module(body=list(before) + list(after), type_ignores=[])
     f['ioOutsideLock'] = sum(1 for c in _self_calls(outside_nodes) if c in io) + _q_calls(outside_nodes, 'get') \
         + sum(1 for n in ast.walk(outside_nodes) if isinstance(n, ast.Attribute) and n.attr == '_sock')
+    # the VARIANT: is the sequence counter touched outside the lock block at all?
+    seq_outside = sum(1 for n in ast.walk(outside_nodes) if isinstance(n, ast.Attribute)
+                      and n.attr in ('next_sequence_number', '_inc_sequence_number'))
+    f['seqOutsideLock'] = seq_outside
+    f['seqInLock'] = bool(withs and seq_outside == 0 and first is withs[0])
     f['sendsInLock'] = _self_calls(inside).count('_send_ipmi_msg')
     f['recvsInLock'] = _self_calls(inside).count('_receive_ipmi_msg')
     f['qGetInLock'] = _q_calls(inside, 'get')
@@ -305,9 +317,22 @@ def analyse_teardown(tree, rmcp, f):
 
         def is_activated(n):
             return isinstance(n, ast.Attribute) and n.attr == 'activated' and _is_self_attr(n.value, '_session')
-        if len(b) > 1 and isinstance(b[1], ast.If) and not b[1].orelse and isinstance(b[1].test, ast.Compare) \
-                and is_activated(b[1].test.left) and len(b[1].test.ops) == 1 and isinstance(b[1].test.ops[0], ast.Is) \
-                and isinstance(b[1].test.comparators[0], ast.Constant) and b[1].test.comparators[0].value is False:
+        def act_is_false(t):
+            return isinstance(t, ast.Compare) and is_activated(t.left) and len(t.ops) == 1 \
+                and isinstance(t.ops[0], ast.Is) and isinstance(t.comparators[0], ast.Constant) \
+                and t.comparators[0].value is False
+
+        def session_is_none(t):
+            return isinstance(t, ast.Compare) and _is_self_attr(t.left, '_session') and len(t.ops) == 1 \
+                and isinstance(t.ops[0], ast.Is) and isinstance(t.comparators[0], ast.Constant) \
+                and t.comparators[0].value is None
+
+        def guard(t):
+            """`self._session.activated is False`, optionally preceded by `self._session is None or` (no session was
+            ever attached: outside the model, where a session exists)"""
+            return act_is_false(t) or (isinstance(t, ast.BoolOp) and isinstance(t.op, ast.Or) and len(t.values) == 2
+                                       and session_is_none(t.values[0]) and act_is_false(t.values[1]))
+        if len(b) > 1 and isinstance(b[1], ast.If) and not b[1].orelse and guard(b[1].test):
             inner = [st for st in b[1].body if not is_log(st)]
             f['closeChecksActivated'] = len(inner) == 1 and isinstance(inner[0], ast.Return) and inner[0].value is None
         rest = b[2:]
@@ -345,9 +370,10 @@ import PyIpmi.Model.Threads
 namespace PyIpmi.Gen.Threads
 open PyIpmi.Threads
 
-/-- keep-alive callable installed by establish_session: %s;  stopper returned by call_repeatedly: %s -/
+/-- keep-alive callable installed by establish_session: %s;  stopper returned by call_repeatedly: %s;
+mentions of next_sequence_number / _inc_sequence_number outside the lock block of _send_and_receive: %d -/
 def shape : Shape :=
-  { lockBlocks := %d, incFirst := %s, incCalls := %d, ioOutsideLock := %d, sendsInLock := %d, recvsInLock := %d,
+  { lockBlocks := %d, incFirst := %s, seqInLock := %s, incCalls := %d, ioOutsideLock := %d, sendsInLock := %d, recvsInLock := %d,
     qGetInLock := %d, qPut := %d, packInSar := %d, packInSend := %d, sendBuildsIpmiMsg := %s, packIncs := %d,
     packIncGuardedByActivated := %s, seqAdd := %d, seqMod := %d, keepAliveLocked := %s, rawLocked := %s,
     msgLocked := %s, sessAdd := %d, sessLimit := %d, sessWrapTo := %d,
@@ -355,7 +381,8 @@ def shape : Shape :=
     closeStopsFirst := %s, closeChecksActivated := %s, closeLocked := %s, closeDeactivatesLast := %s }
 
 end PyIpmi.Gen.Threads
-''' % (f['keepAliveName'], f['stopperText'], f['lockBlocks'], _b(f['incFirst']), f['incCalls'], f['ioOutsideLock'], f['sendsInLock'],
+''' % (f['keepAliveName'], f['stopperText'], f['seqOutsideLock'], f['lockBlocks'], _b(f['incFirst']), _b(f['seqInLock']),
+       f['incCalls'], f['ioOutsideLock'], f['sendsInLock'],
        f['recvsInLock'], f['qGetInLock'], f['qPut'], f['packInSar'], f['packInSend'], _b(f['sendBuildsIpmiMsg']),
        f['packIncs'], _b(f['packIncGuardedByActivated']), int(f['seqAdd']), int(f['seqMod']), _b(f['keepAliveLocked']),
        _b(f['rawLocked']), _b(f['msgLocked']), int(f['sessAdd']), int(f['sessLimit']), int(f['sessWrapTo']),
